@@ -303,6 +303,17 @@ func fuzzSeeds() [][]byte {
 	add(specOf([]string{"DCTDecode"}, nil, tinyJPEG(0xc1, 12, 16, 16, y22(0x11, 0x11), []int{0, 1, 2}, 64), nil, 0))
 	add(specOf([]string{"DCTDecode"}, nil, tinyJPEG(0xc0, 16, 16, 16, y22(0x11, 0x11), []int{0, 1, 2}, 64), nil, 0))
 	add(specOf([]string{"DCTDecode"}, nil, tinyJPEG(0xc0, 8, 16, 16, []jpegComp{{1, 0x22, 3, 0x33}, {2, 0x11, 1, 0x11}, {3, 0x11, 4, 0x44}}, []int{0, 1, 2}, 64), nil, 0))
+	// a full scan repeated under each frame type
+	for _, j := range jpegSeeds[:min(len(jpegSeeds), 5)] {
+		for _, sof := range []int{0xc0, 0xc1, 0xc2} {
+			for _, k := range []int{1, 2, 5} {
+				if b := repeatScans(editJPEGHeader(j, []jpegEdit{{jeSOF, 0, sof}}), k); len(b) <= fuzzMaxBody {
+					add(specOf([]string{"DCTDecode"}, nil, b, nil, 0x40))
+				}
+			}
+		}
+	}
+	add(specOf([]string{"DCTDecode"}, nil, repeatScans(tinyJPEG(0xc1, 8, 16, 16, y22(0x11, 0x11), []int{0, 1, 2}, 64), 40), nil, 0))
 	// the same edits on real encoder output (4:2:0 from image/jpeg)
 	for _, j := range jpegSeeds {
 		if sof, _ := jpegSegments(j); sof >= 0 && j[sof+9] == 3 {
